@@ -162,8 +162,16 @@ def run_case(ctx, n):
     if n < N_SWEEP:
         shape, raw, ground = FIXED[n // 64]
         order = orders()[n % 64]
-        case = {"kind": "fixed", "item": n // 64, "shape": shape, "raw": raw, "ground": [ground] if ground is not None else [],
-                "order": order, "labels": ("fixed%d" % (n // 64),), "via_ctor": n % 2 == 0, "heal": (n % 64) in (0, 15, 40)}
+        grounds = [ground] if ground is not None else []
+        related = []
+        nshape, nraw, nground = FIXED[(n // 64 + 1) % len(FIXED)]      # the next witness of the same schema, as a second text
+        if nshape == shape and len(nraw) < 2000:
+            related.append(nraw)
+            if nground is not None:
+                grounds.append(nground)
+        case = {"kind": "fixed", "item": n // 64, "shape": shape, "raw": raw, "ground": grounds,
+                "order": order, "labels": ("fixed%d" % (n // 64),), "via_ctor": n % 2 == 0, "heal": (n % 64) in (0, 15, 40),
+                "session": (n % 64) in (3, 27, 52) and len(raw) < 2000, "related": related}
         return judge(ctx, case, ctx.rng(n))
     rng = ctx.rng(n)
     hs = lambda r: G.hostile_string(r, O.n_groups_changing)  # noqa: E731
@@ -183,7 +191,8 @@ def run_case(ctx, n):
     grounds = [data_out, inst]      # what a correct repair of the text recovers (and its sub-objects), and the pre-swap instance
     text = G.write(data_out, st, rng)
     decoy_value = G.gen_instance(rng, shape, 0.0, hs)
-    raw, wr, decoy_grounds = G.wrap(rng, text, G.write(decoy_value, G.Style(), rng), decoy_value)
+    decoy_text = G.write(decoy_value, G.Style(), rng)
+    raw, wr, decoy_grounds = G.wrap(rng, text, decoy_text, decoy_value)
     grounds.extend(decoy_grounds)
     labels = list(sem) + list(st.labels) + list(wr)
     if rng.random() < 0.004:
@@ -195,7 +204,8 @@ def run_case(ctx, n):
     else:
         order = rng.choice(orders())
     case = {"kind": "random", "shape": shape, "raw": raw, "ground": grounds, "order": order, "labels": tuple(labels),
-            "via_ctor": rng.random() < 0.5, "heal": rng.random() < 0.08}
+            "via_ctor": rng.random() < 0.5, "heal": rng.random() < 0.08,
+            "session": rng.random() < 0.06 and len(raw) < 3000, "related": [text, decoy_text]}
     return judge(ctx, case, rng)
 
 
@@ -204,6 +214,8 @@ def _desc(case, **kw):
     d = {"raw": case["raw"], "schema": case["shape"], "labels": case["labels"],
          "order": [s.value for s in case["order"]] if case["order"] else "default",
          "via_constructor": case["via_ctor"]}
+    if case.get("kind") == "session":
+        d["session"] = case["session"]
     d.update(kw)
     return d
 
@@ -217,15 +229,24 @@ def _call(ctx, case, which, fn):
         return None, e
 
 
+def raw_facts(ctx, raw, S):
+    """Independent facts about a raw text: is it, as it stands, schema-valid JSON (and what does it validate to)."""
+    try:
+        return True, S.model_validate(json.loads(raw))
+    except Exception:
+        return False, None
+
+
 def judge(ctx, case, rng):
-    from operon_ai.organelles.chaperone import Chaperone, FoldingStrategy as FS, EnhancedFoldedProtein
-    from operon_ai.core.types import FoldedProtein
+    from operon_ai.organelles.chaperone import Chaperone, FoldingStrategy as FS
 
     shape, raw, order = case["shape"], case["raw"], case["order"]
     S = G.build_model(shape)
     for lb in case["labels"]:
         ctx.count("op:" + lb)
     ctx.count("order:" + ("default" if not order else "len%d" % len(order)))
+    if any(ord(ch) > 0x2000 for ch in raw[:4000]):
+        ctx.count("raws_with_literal_typography")
 
     misfolds = []
 
@@ -238,24 +259,17 @@ def judge(ctx, case, rng):
             return Chaperone(strategies=list(order), on_misfold=on_misfold, silent=True), None
         return Chaperone(on_misfold=on_misfold, silent=True), (list(order) if order else None)
 
-    # ---- independent facts about the raw text
-    strict_valid = False
-    E = None
-    try:
-        parsed = json.loads(raw)
-        E = S.model_validate(parsed)
-        strict_valid = True
-    except Exception:
-        pass
+    strict_valid, E = raw_facts(ctx, raw, S)
     if strict_valid:
         ctx.count("strict_valid_raws")
+        if not raw.isascii():
+            ctx.count("strict_valid_non_ascii_raws")
 
-    # ---- run the real code
+    # ---- run the real code (a fresh instance per API)
     ch, per_call = mk()
     eff = list(order) if order else list(ch.strategies)     # "default" = whatever order the instance documents
     enh, err1 = _call(ctx, case, "fold_enhanced", lambda: ch.fold_enhanced(raw, S, per_call) if per_call else ch.fold_enhanced(raw, S))
     stats_e = ch.get_statistics()
-    n_mis_e = len(misfolds)
     ch2, per_call2 = mk()
     pl, err2 = _call(ctx, case, "fold", lambda: ch2.fold(raw, S, per_call2) if per_call2 else ch2.fold(raw, S))
     stats_p = ch2.get_statistics()
@@ -263,6 +277,29 @@ def judge(ctx, case, rng):
         ctx.count("stats:attempts:" + s.value, stats_e["strategy_attempts"][s.value] + stats_p["strategy_attempts"][s.value])
     if enh is None or pl is None:
         return
+    used = assess(ctx, case, S, enh, pl, eff, misfolds, strict_valid, E)
+
+    # ---- the healing loop on top of fold_enhanced (anchored: chaperone_loop.py)
+    if case["heal"]:
+        heal_monitor(ctx, case, rng, S, enh, mk, FS)
+
+    # ---- one long-lived instance folding this and related texts repeatedly
+    if case.get("session"):
+        session_monitor(ctx, case, rng)
+
+    # ---- evidence
+    if strict_valid or enh.valid:
+        ctx.nontrivial((G.shape_key(shape), case["labels"], used.value if isinstance(used, FS) else None, bool(enh.valid)))
+    if case["kind"] == "random":
+        ctx.sample(_desc(case, valid=enh.valid, strategy=used.value if isinstance(used, FS) else None,
+                         structure=repr(enh.structure)), cap=3)
+
+
+def assess(ctx, case, S, enh, pl, eff, misfolds, strict_valid, E):
+    """Monitors (a)-(d) on one (fold_enhanced, fold) result pair for case['raw'] / S / the effective strategy list."""
+    from operon_ai.organelles.chaperone import FoldingStrategy as FS, EnhancedFoldedProtein
+    from operon_ai.core.types import FoldedProtein
+    raw = case["raw"]
     ctx.count("folds_enhanced")
     ctx.count("folds_plain")
 
@@ -285,6 +322,12 @@ def judge(ctx, case, rng):
                 ctx.count("coercion:" + (c.split("_", 1)[1] if "_" in c else c))
             elif used == FS.REPAIR:
                 ctx.count("repair:" + c)
+        if isinstance(used, FS):
+            # the caller's strategy list is the set of strategies allowed to accept the text ("all strategy orders/subsets")
+            ctx.count("strategy_membership_checked")
+            if used not in eff:
+                ctx.violation("strategy-used-not-configured", "valid fold attributed to %s although the strategy list is %s" % (
+                    used.value, [x.value for x in eff]), _desc(case, strategy=str(used)))
         c = enh.confidence
         if not isinstance(c, (int, float)) or isinstance(c, bool) or not (0.0 <= c <= 1.0):
             ctx.violation("confidence-out-of-range", "valid fold with confidence %r" % (c,), _desc(case, strategy=str(used)))
@@ -323,6 +366,8 @@ def judge(ctx, case, rng):
                 ctx.violation("strict-valid-rejected:" + which, "schema-valid JSON reported invalid with STRICT configured", _desc(case))
         if eff[0] == FS.STRICT:
             ctx.count("strict_first_exact")
+            if not raw.isascii():
+                ctx.count("strict_first_exact_non_ascii")
             if enh.valid and (used != FS.STRICT or enh.confidence != 1.0):
                 ctx.violation("strict-valid-not-by-strict", "schema-valid JSON folded by %s with confidence %r although STRICT is first" % (
                     used, enh.confidence), _desc(case))
@@ -333,22 +378,82 @@ def judge(ctx, case, rng):
 
     # ---- (b) provenance of the valid structures
     if enh.valid and ok_e:
-        provenance(ctx, case, "fold_enhanced", enh.structure, S, used, FS)
+        provenance(ctx, case, "fold_enhanced", enh.structure, S, used, FS, eff)
     if pl.valid and ok_p and not (enh.valid and ok_e and O.same(O.dump(pl.structure), O.dump(enh.structure))):
         # plain result differs from the enhanced one (already a violation above) — judge it on its own as well;
         # the plain API does not say which strategy won, so no repair allowance applies
-        provenance(ctx, case, "fold", pl.structure, S, None, FS)
+        provenance(ctx, case, "fold", pl.structure, S, None, FS, eff)
+    return used
 
-    # ---- the healing loop on top of fold_enhanced (anchored: chaperone_loop.py)
-    if case["heal"]:
-        heal_monitor(ctx, case, rng, S, enh, mk, FS)
 
-    # ---- evidence
-    if strict_valid or enh.valid:
-        ctx.nontrivial((G.shape_key(shape), case["labels"], used.value if isinstance(used, FS) else None, bool(enh.valid)))
-    if case["kind"] == "random":
-        ctx.sample(_desc(case, valid=enh.valid, strategy=used.value if isinstance(used, FS) else None,
-                         structure=repr(enh.structure)), cap=3)
+def session_monitor(ctx, case, rng):
+    """(e) One long-lived Chaperone: the case's raw text (mostly) and related texts are folded again and again, by both
+    APIs, under a different strategy list per call and against the schema, an equal-but-distinct twin class and a re-typed
+    sibling. Every step is judged by the same monitors as a fresh fold: nothing an earlier call left behind may make a
+    later 'valid' unsound, make plain and enhanced disagree, or let a strategy outside the caller's list accept."""
+    from operon_ai.organelles.chaperone import Chaperone, FoldingStrategy as FS
+    ctx.count("sessions")
+    shape = case["shape"]
+    sib = G.sibling_shape(rng, shape)
+    schemas = [(shape, G.build_model(shape)), (shape, G.build_model(shape, twin=True)), (sib, G.build_model(sib))]
+    texts = [case["raw"]] + [t for t in case.get("related", []) if t != case["raw"]]
+    misfolds = []
+    state = {"depth": 0, "reentrant": rng.random() < 0.3}
+
+    def on_misfold(e):
+        misfolds.append(e)
+        ctx.count("misfold_callbacks")
+        if state["reentrant"] and state["depth"] == 0:
+            # a fold of another text started from inside the callback of the running one, on the same instance
+            state["depth"] += 1
+            try:
+                ctx.count("session_reentrant_folds")
+                ch.fold(texts[-1], schemas[0][1])
+                ch.fold_enhanced(texts[0], schemas[0][1])
+            finally:
+                state["depth"] -= 1
+
+    ctor = rng.choice([None, None, rng.choice(orders())])
+    ch = Chaperone(strategies=list(ctor), on_misfold=on_misfold, silent=True) if ctor else Chaperone(on_misfold=on_misfold, silent=True)
+    history = []
+    accepted = set()        # (text, schema index) already reported valid by this instance
+    for step in range(rng.randint(3, 7)):
+        ti = 0 if rng.random() < 0.7 else rng.randrange(len(texts))
+        si = rng.choice([0, 0, 0, 0, 1, 1, 2])
+        if step == 0:
+            order = None if rng.random() < 0.7 else rng.choice(orders())
+            ti = si = 0
+        else:
+            order = rng.choice([None] + [rng.choice(orders())] * 4)
+        raw = texts[ti]
+        shp, S = schemas[si]
+        eff = list(order) if order else list(ch.strategies)
+        plain_first = rng.random() < 0.5
+        history.append({"text": ti, "schema": ("same", "twin", "sibling")[si], "order": [s.value for s in order] if order else "default",
+                        "first": "fold" if plain_first else "fold_enhanced"})
+        sub = {"kind": "session", "shape": shp, "raw": raw, "ground": case["ground"], "order": order,
+               "labels": case["labels"], "via_ctor": False,
+               "session": {"constructor_order": [s.value for s in ctor] if ctor else "default", "texts": texts, "steps": list(history)}}
+        del misfolds[:]
+        pl = enh = None
+        for api in (("fold", "fold_enhanced") if plain_first else ("fold_enhanced", "fold")):
+            fn = ch.fold if api == "fold" else ch.fold_enhanced
+            res, _ = _call(ctx, sub, api, (lambda: fn(raw, S, list(order))) if order else (lambda: fn(raw, S)))
+            if api == "fold":
+                pl = res
+            else:
+                enh = res
+        if pl is None or enh is None:
+            return
+        ctx.count("session_steps")
+        if any(k[0] == ti for k in accepted):
+            ctx.count("session_refolds_of_accepted_text")
+            if not enh.valid:
+                ctx.count("session_refold_now_rejected")      # a narrower list / other schema rejects what was accepted before
+        strict_valid, E = raw_facts(ctx, raw, S)
+        assess(ctx, sub, S, enh, pl, eff, list(misfolds), strict_valid, E)
+        if enh.valid:
+            accepted.add((ti, si))
 
 
 def direct_checks(ctx, case, which, res, S, cls):
@@ -379,10 +484,10 @@ def direct_checks(ctx, case, which, res, S, cls):
     return True
 
 
-def provenance(ctx, case, which, X, S, used, FS):
+def provenance(ctx, case, which, X, S, used, FS, eff):
     ctx.count("provenance_checked")
     raw, shape = case["raw"], case["shape"]
-    repair = used == FS.REPAIR and FS.REPAIR in (case["order"] or list(FS))
+    repair = used == FS.REPAIR and FS.REPAIR in eff
     cands = [("text@%s" % w, v) for w, v in O.text_candidates(raw)]
     ctx.count("text_candidates", len(cands))
     gt = []
@@ -412,14 +517,22 @@ def provenance(ctx, case, which, X, S, used, FS):
         X, which, last or "no object candidate"), _desc(case, candidates=[k for _, k in (cands + cands_gt)[:6]]))
 
 
+JUNK_OUTPUTS = ["not json at all", "", "{", '{"unrelated": 1', "[1, 2", "sorry \u2014 I can\u2019t", "{'k': }"]
+
+
 def heal_monitor(ctx, case, rng, S, enh, mk, FS):
+    """(f) ChaperoneLoop.heal over the case's text: the generator fails `junk` times and then emits the raw text.
+    Configurations cover the default and unusual ones (no retries, many retries, zero / steep / >1 decay); the text
+    is reached on any attempt number or never."""
     from operon_ai.healing.chaperone_loop import ChaperoneLoop, HealingOutcome
     ctx.count("heal_runs")
     raw = case["raw"]
-    junk = rng.randint(0, 2)
-    max_retries = rng.randint(0, 3)
-    decay = rng.choice([0.0, 0.1, 0.5])
-    outs = ["not json at all"] * junk + [raw]
+    max_retries = rng.choice([0, 1, 2, 3, 3, 3, 5, 8, 12, 15])
+    decay = rng.choice([0.0, 0.05, 0.1, 0.1, 0.1, 0.25, 0.3, 0.5, 0.75, 1.0, 1.5, 2.5])
+    r0 = rng.random()
+    junk = 0 if r0 < 0.2 else (max_retries if r0 < 0.45 else rng.randint(0, max_retries + 1))
+    junk_text = rng.choice(JUNK_OUTPUTS)
+    outs = [junk_text] * junk + [raw]
     calls = []
 
     def gen(prompt, error_context=None):
@@ -430,17 +543,31 @@ def heal_monitor(ctx, case, rng, S, enh, mk, FS):
     ch, per_call = mk()
     if per_call:        # the loop cannot pass a per-call order; configure it on the instance
         ch = type(ch)(strategies=per_call, silent=True)
-    loop = ChaperoneLoop(generator=gen, chaperone=ch, schema=S, max_retries=max_retries, confidence_decay=decay, silent=True)
+    junk_ok = ch.fold_enhanced(junk_text, S).valid if junk else False     # a repairable junk text would end the loop early
+    kw = {}
+    if not (max_retries == 3 and rng.random() < 0.5):
+        kw["max_retries"] = max_retries
+    if not (decay == 0.1 and rng.random() < 0.5):
+        kw["confidence_decay"] = decay
+    loop = ChaperoneLoop(generator=gen, chaperone=ch, schema=S, silent=True, **kw)
     try:
         r = loop.heal("p")
     except Exception as e:
         ctx.violation("heal-raises:" + type(e).__name__, "heal() raised %s" % (e,), _desc(case))
         return
-    d = _desc(case, junk=junk, max_retries=max_retries, decay=decay, outcome=str(r.outcome))
+    d = _desc(case, junk=junk, junk_text=junk_text, max_retries=max_retries, decay=decay, outcome=str(r.outcome))
+    if junk_ok:
+        ctx.count("heal_junk_accepted")
+        return
+    ctx.count("heal_attempts", len(calls))
     reached = len(calls) > junk          # the case's raw text was folded by the loop
     valid = r.outcome in (HealingOutcome.VALID_FIRST_TRY, HealingOutcome.HEALED)
     if valid:
         ctx.count("heal_valid")
+        if junk:
+            ctx.count("heal_valid_after_retries")
+        if junk * decay >= 1.0:
+            ctx.count("heal_valid_decay_saturated")     # the retry discount alone exhausts the confidence
         X = r.structure
         f = r.folded
         if f is None or not f.valid or X is None or not isinstance(X, S):
@@ -450,18 +577,27 @@ def heal_monitor(ctx, case, rng, S, enh, mk, FS):
             ctx.violation("heal-vs-fold:validity", "heal() reports %s but fold_enhanced on the same text is invalid" % (r.outcome,), d)
         elif not O.same(O.dump(X), O.dump(enh.structure)):
             ctx.violation("heal-vs-fold:structure", "heal() structure %r differs from fold_enhanced %r" % (X, enh.structure), d)
-        for c in (r.final_confidence, f.confidence):
-            if not (0.0 <= c <= 1.0):
-                ctx.violation("heal-confidence-out-of-range", "confidence %r" % (c,), d)
-            elif c == 1.0 and f.strategy_used != FS.STRICT:
-                ctx.violation("heal-confidence-1.0-non-strict", "confidence 1.0 for a %s fold" % (f.strategy_used,), d)
+        # the fold's confidence (also as final_confidence) obeys both confidence clauses; a per-attempt record carries the
+        # retry discount only (1.0 on the first attempt whatever the strategy), so only the range applies to it
+        confs = [("final_confidence", r.final_confidence, True), ("folded.confidence", f.confidence, True)]
+        confs += [("attempts[%d].confidence" % a.attempt_number, a.confidence, False) for a in r.attempts]
+        for name, c, is_fold in confs:
+            ctx.count("heal_confidences_checked")
+            if not isinstance(c, (int, float)) or isinstance(c, bool) or not (0.0 <= c <= 1.0):
+                ctx.violation("heal-confidence-out-of-range", "%s = %r for a valid healed fold" % (name, c), d)
+                break
+            elif is_fold and c == 1.0 and f.strategy_used != FS.STRICT:
+                ctx.violation("heal-confidence-1.0-non-strict", "%s = 1.0 for a %s fold" % (name, f.strategy_used), d)
+                break
     else:
+        ctx.count("heal_degraded")
         if r.structure is not None or (r.folded is not None and r.folded.valid):
             ctx.violation("heal-invalid-with-structure", "outcome %s with structure %r" % (r.outcome, r.structure), d)
         if reached and enh.valid:
             ctx.violation("heal-vs-fold:validity", "heal() degraded although fold_enhanced accepts the text", d)
-        if not (0.0 <= r.final_confidence < 1.0):
-            ctx.violation("heal-confidence-out-of-range", "degraded result with confidence %r" % (r.final_confidence,), d)
+        confs = [r.final_confidence] + [a.confidence for a in r.attempts]
+        if not all(isinstance(c, (int, float)) and 0.0 <= c < 1.0 for c in confs):
+            ctx.violation("heal-confidence-out-of-range", "degraded result with confidences %r" % (confs,), d)
 
 
 if __name__ == "__main__":
